@@ -39,6 +39,13 @@ def run(ctx):
     check_utf16_helper(ctx)
     import nullret
     nullret.check(ctx, prog, 'C06', ('Xdl.cpp',))
+    # every decoded string value is stored through Var(const String&) / Var(const char*): the representation these constructors
+    # write (inline buffer up to its size less the terminator, heap copy beyond) is the shared rule of C04
+    import C04
+    vunits = [os.path.join(ir.REPO, 'src', 'Var.cpp'), os.path.join(ir.VERIF, 'drivers', 'inst_containers.cpp')]
+    vprog = ir.load_units(vunits, force_inst=[vunits[1]])
+    C04.check_inline(ctx, vprog)
+    C04.check_strrep(ctx, vprog)
     # what the decoder makes of each escape sequence (shared with C05: the encoder's text for every byte, read back through the
     # interpreted decoder transitions, must be that byte - a swapped or missing escape letter changes the decoded value)
     import C05
